@@ -3,11 +3,12 @@
    pkg/rfc8888/stream_log.go + recorder.go (+ the loop of interceptor.go, which only feeds them).
 
    State is kept per SSRC over *true* (unwrapped, unbounded) sequence numbers; the wire carries residues
-   modulo M.  Clocks are integer milliseconds (offsets from a base chosen by the harness).
+   modulo M.  Clocks are integer MICROSECONDS (offsets from a base chosen by the harness, below 2^31 = 35 min),
+   fine enough to place an arrival on either side of every 1/1024 s boundary of the offset encoding.
    One operator per public call:
-     AddStep(x, n16, tMs, ecn)          Recorder.AddPacket on the stream x
-     BuildOut(st, nowMs, maxSize)       what Recorder.BuildReport returns (one block per known SSRC)
-     BuildStep(st, nowMs, maxSize)      the state after BuildReport
+     AddStep(x, n16, tUs, ecn)          Recorder.AddPacket on the stream x
+     BuildOut(st, nowUs, maxSize)       what Recorder.BuildReport returns (one block per known SSRC)
+     BuildStep(st, nowUs, maxSize)      the state after BuildReport
    Per stream:  u     last unwrapped number (the unwrapper's own state)
                 next  report cursor: every number below it is outside all later reports
                 last  highest number received
@@ -35,11 +36,12 @@ Res(t)    == t % M
 AtoOver  == 8190                 \* 0x1FFE  offset too large
 AtoAfter == 8191                 \* 0x1FFF  arrival after the report time
 AtoMax   == 8189                 \* 0x1FFD  largest representable offset
+\* 1024 * d / 10^6 = 16 * d / 15625 (d in microseconds); d < 8 s keeps 16 * d below 2^31
 Ato(now, arr) ==
   IF arr > now THEN AtoAfter
   ELSE LET d == now - arr IN
-       IF d >= 8000 THEN AtoOver                       \* 1024 * 8 s = 0x2000; also keeps d * 1024 below 2^31
-       ELSE LET a == (d * 1024) \div 1000 IN IF a > AtoMax THEN AtoOver ELSE a
+       IF d >= 8000000 THEN AtoOver                    \* 1024 * 8 s = 0x2000 > 0x1FFD
+       ELSE LET a == (d * 16) \div 15625 IN IF a > AtoMax THEN AtoOver ELSE a
 
 \* ---- sequence-number unwrapper (same function as Unwrap!UnwrapVal, C20) ----
 UwVal(last, v) ==
@@ -60,14 +62,14 @@ CE == 3
 \* true number a packet with wire number n16 denotes on stream x
 TrueNum(x, n16) == IF x.init THEN UwVal(x.u, n16) ELSE n16
 
-AddStep(x, n16, tMs, ecn) ==
+AddStep(x, n16, tUs, ecn) ==
   LET t  == TrueNum(x, n16)
       nx == IF x.init THEN x.next ELSE t
       y  == [x EXCEPT !.init = TRUE, !.u = t, !.next = nx]
   IN  IF t < nx THEN y                                                      \* below the cursor: dropped
       ELSE IF t \in DOMAIN x.log
            THEN [y EXCEPT !.log = [x.log EXCEPT ![t].ce = @ \/ (ecn = CE)]] \* duplicate: first copy stays
-      ELSE [y EXCEPT !.log = PutF(x.log, t, [arr |-> tMs, ecn |-> ecn, ce |-> (ecn = CE)]),
+      ELSE [y EXCEPT !.log = PutF(x.log, t, [arr |-> tUs, ecn |-> ecn, ce |-> (ecn = CE)]),
                      !.last = Max(x.last, t)]
 
 \* ---- size budget ----
@@ -93,7 +95,7 @@ BlockStep(x, B) ==
 
 \* ---- the recorder: st is a function SSRC -> stream ----
 Get(st, s)    == IF s \in DOMAIN st THEN st[s] ELSE Fresh
-RecAdd(st, s, n16, tMs, ecn) == PutF(st, s, AddStep(Get(st, s), n16, tMs, ecn))
+RecAdd(st, s, n16, tUs, ecn) == PutF(st, s, AddStep(Get(st, s), n16, tUs, ecn))
 K(st) == Cardinality(DOMAIN st)
 BuildOut(st, now, maxSize) ==
   IF DOMAIN st = {} THEN <<>>
@@ -111,7 +113,8 @@ OutLen(out) == MarshalLen([s \in DOMAIN out |-> Len(out[s].m)])
 
 \* ---- report timestamp: middle 32 bits of the NTP time, as <<seconds mod 2^16, 1/65536 s>> ----
 \* ntp16 = NTP seconds of the harness's base time modulo 2^16 (the base is a whole second)
-Rts(ntp16, now) == <<(ntp16 + now \div 1000) % 65536, ((now % 1000) * 65536) \div 1000>>
+\* 65536 / 10^6 = 1024 / 15625
+Rts(ntp16, now) == <<(ntp16 + now \div 1000000) % 65536, ((now % 1000000) * 1024) \div 15625>>
 \* signed distance in 2^-16 s units between two such pairs, when they are less than a second apart
 RtsNear(a, b) == LET ds == ((a[1] - b[1] + 32768) % 65536) - 32768 IN
                  /\ ds \in {-1, 0, 1}
@@ -119,11 +122,11 @@ RtsNear(a, b) == LET ds == ((a[1] - b[1] + 32768) % 65536) - 32768 IN
 
 \* ---- deviation predicates (names usable as tags in KNOWN_FINDINGS.jsonl) ----
 \* a second copy of a packet that is still in the log arrives with another time stamp or ECN mark
-DupArrival(x, n16, tMs, ecn) ==
+DupArrival(x, n16, tUs, ecn) ==
   x.init /\ LET t == UwVal(x.u, n16) IN
-            t \in DOMAIN x.log /\ (x.log[t].arr # tMs \/ x.log[t].ecn # ecn)
+            t \in DOMAIN x.log /\ (x.log[t].arr # tUs \/ x.log[t].ecn # ecn)
 \* a logged packet is at least 64 s older than the report time (1024 * seconds no longer fits 16 bits)
-AtoWraps16(st, now) == \E s \in DOMAIN st : \E t \in DOMAIN st[s].log : now - st[s].log[t].arr >= 64000
+AtoWraps16(st, now) == \E s \in DOMAIN st : \E t \in DOMAIN st[s].log : now - st[s].log[t].arr >= 64000000
 \* the equal split of the size limit gives every stream an odd number of entries
 OddBudget(st, maxSize) == DOMAIN st # {} /\ NaiveBudget(maxSize, K(st)) % 2 = 1
 =============================================================================
